@@ -66,14 +66,15 @@ class Expect:
             slave.append((cob["local"], self.pdo["local"][0], self.pdo["local"][1], False))
         if self.hb is not None:
             slave.append((0x700 + K, bytes([self.state]), self.hb, False))
-        return sorted(master), sorted(slave)
+        # (all ids used here are 11-bit ids: standard frame format, last element)
+        return sorted(t + (False,) for t in master), sorted(t + (False,) for t in slave)
 
 
 def live(st):
     out = []
     for t in st.tasks:
         cid, data, ext, rtr = t.current()
-        out.append((cid, b"" if rtr else bytes(data), t.period, bool(rtr)))
+        out.append((cid, b"" if rtr else bytes(data), t.period, bool(rtr), bool(ext)))
     return sorted(out)
 
 
@@ -133,6 +134,8 @@ def history(ctx, rng, desc, hid):
                     mech = f"stale-payload:{prod}:{flavour}"
                 elif [t[2] for t in g] != [t[2] for t in w]:
                     mech = f"wrong-period:{prod}"
+                elif [t[4] for t in g] != [t[4] for t in w]:
+                    mech = f"frame-format-changed:{prod}"
                 else:
                     mech = f"task-mismatch:{prod}"
                 ctx.violation(mech, f"after {after}: live tasks of {who} for {prod} = {g}, expected {w}", case())
